@@ -50,32 +50,38 @@ def splitSol (v : Vec K (n + p + m)) : Vec K n × Vec K p × Vec K m :=
    Vector.ofFn fun i => v[(⟨n + i.val, by omega⟩ : Fin (n + p + m))],
    Vector.ofFn fun i => v[(⟨n + p + i.val, by omega⟩ : Fin (n + p + m))])
 
-/-- inner solver of the sparse back ends: LDLᵀ of `K(perm, perm)` -/
+/-- forward substitution with a lower-triangular `L`; `unit = true` ignores the stored diagonal -/
+def fwdSubst {N : Nat} (unit : Bool) (L : Mat K N N) (b : Vec K N) : Vec K N :=
+  Fin.foldl N (fun y i =>
+    let t := b[i] - sumFin N (fun j => if j.val < i.val then L[i][j] * y[j] else 0)
+    y.set i (if unit then t else t / L[i][i])) b
+
+/-- backward substitution with `Lᵀ` -/
+def bwdSubst {N : Nat} (unit : Bool) (L : Mat K N N) (y : Vec K N) : Vec K N :=
+  Fin.foldr N (fun i x =>
+    let t := y[i] - sumFin N (fun j => if i.val < j.val then L[j][i] * x[j] else 0)
+    x.set i (if unit then t else t / L[i][i])) y
+
+/-- inner factorisation of the sparse back ends: LDLᵀ of `K(perm, perm)`, then `L⁻¹`, `D⁻¹`, `L⁻ᵀ` -/
 def innerLDLT [DecidableEq K] (be : Backend) (perm : Vector (Fin (n + p + m)) (n + p + m)) : Inner K n p m :=
-  fun kb rx ry rz =>
-    let A := permSym (assemble be kb) perm
-    let b := permVec perm (assembleRhs be rx ry rz)
-    match ldltSolve (n + p + m) A b with
+  fun kb =>
+    match ldlt (n + p + m) (permSym (assemble be kb) perm) with
     | .error _ => none
-    | .ok x => some (splitSol (permtVec perm x))
+    | .ok (L, D) =>
+      let dinv : Vec K (n + p + m) := Vector.ofFn fun i => 1 / D[i]
+      some fun rx ry rz =>
+        let b := permVec perm (assembleRhs be rx ry rz)
+        let y := fwdSubst true L b
+        let z : Vec K (n + p + m) := Vector.ofFn fun i => y[i] * dinv[i]
+        splitSol (permtVec perm (bwdSubst true L z))
 
-/-- inner solver of the dense back end: LLᵀ of the `n × n` matrix (natural order, abstract sqrt) -/
+/-- inner factorisation of the dense back end: LLᵀ of the `n × n` matrix (natural order, abstract sqrt) -/
 def innerLLT [LE K] [DecidableLE K] (sqrtF : K → K) : Inner K n p m :=
-  fun kb rx _ _ =>
-    match lltSolve sqrtF n kb.xx rx with
+  fun kb =>
+    match llt sqrtF n kb.xx with
     | .error _ => none
-    | .ok x => some (x, Vector.ofFn fun _ => 0, Vector.ofFn fun _ => 0)
-
-def factorLDLT [DecidableEq K] (be : Backend) (perm : Vector (Fin (n + p + m)) (n + p + m))
-    (kb : KBlocks K n p m) : Bool :=
-  match ldlt (n + p + m) (permSym (assemble be kb) perm) with
-  | .error _ => false
-  | .ok _ => true
-
-def factorLLT [LE K] [DecidableLE K] (sqrtF : K → K) (kb : KBlocks K n p m) : Bool :=
-  match llt sqrtF n kb.xx with
-  | .error _ => false
-  | .ok _ => true
+    | .ok L =>
+      some fun rx _ _ => (bwdSubst false L (fwdSubst false L rx), Vector.ofFn fun _ => 0, Vector.ofFn fun _ => 0)
 
 end
 end Piqp
